@@ -10,7 +10,7 @@ ID = "C15"
 LEVEL = "fault_enumeration"
 RULE = ("trees {three classes incl. a 131073-byte class that reaches the suffix and content stages under the SSD pin, nested "
         "directories, a hard link; the same with file/directory symlinks and -L; a tree on ext4 under the HDD pin so that "
-        "FIEMAP is issued; a small tree under the 'unknown' pin}, `group -t 1` (two of the trees also with --unique, "
+        "FIEMAP is issued; a small tree under the 'unknown' pin; a tree spread over three input paths, given as arguments and through --stdin, where every call on an input path after the up-front existence check is a fault point}, `group -t 1` (two of the trees also with --unique, "
         "--rf-under 3 and --rf-over 0); the read-side call history (stat, lstat, "
         "open, every read, opendir, every readdir, readlink, realpath, FIEMAP ioctl) is recorded twice (must be "
         "identical); then EVERY event k fails with EACCES, EIO and ENOENT (thorough: also every pair k1<k2 for the small "
@@ -18,8 +18,9 @@ RULE = ("trees {three classes incl. a 131073-byte class that reaches the suffix 
         "tree without some subset S of the entries affected by the failing call (the path and its other links; the sub-tree for a directory call), S empty "
         "for FIEMAP faults and probes of absent ignore files; a warning unless the errno is ENOENT; every reported group "
         "byte-identical. distinct_nontrivial = distinct (tree, k, errno) reached.")
-ASSUMPTIONS = ["faults on the stat/realpath of an input path itself before the walk starts are input validation, not "
-               "part of the property, and are skipped", "single-threaded pools (-t 1) for a deterministic history"]
+ASSUMPTIONS = ["input validation is not part of the property and is skipped: the stat/realpath of the base directory, the "
+               "up-front existence check of input paths given as arguments (their first call) and, when there is only "
+               "one input path, every call on it before the walk starts (a run left without any input may fail)", "single-threaded pools (-t 1) for a deterministic history"]
 
 
 def tree_main():
@@ -44,6 +45,12 @@ TREES = {
                        {"p": "r/q1", "k": "file", "c": ["lit", "diff"]}, {"p": "r/s/p3", "k": "file", "c": ["lit", "same"]}],
                       [], "unknown", False),
 }
+# several input paths (as arguments and through --stdin): a fault on one root must not affect the other roots
+TREES["three_roots"] = ([{"p": "r/a1", "k": "file", "c": ["lit", "same"]}, {"p": "r2/a2", "k": "file", "c": ["lit", "same"]},
+                         {"p": "r3/s/a3", "k": "file", "c": ["lit", "same"]}, {"p": "r2/b1", "k": "file", "c": ["lit", "bbbb"]},
+                         {"p": "r3/b2", "k": "file", "c": ["lit", "bbbb"]}, {"p": "r/u", "k": "file", "c": ["lit", "uniq"]}],
+                        [], "ssd", False)
+ROOTS = {"three_roots": ["r", "r2", "r3"]}
 ERRNOS = ["EACCES", "EIO", "ENOENT"]
 
 
@@ -58,8 +65,12 @@ def cases(tier, seed):
     for flt in (["--unique"], ["--rf-under", "3"], ["--rf-over", "0"]):
         out.append({"tree": "main_ssd", "pairs": False, "tier": tier, "filter": flt})
         out.append({"tree": "small_unknown", "pairs": False, "tier": tier, "filter": flt})
+    for stdin in (False, True):
+        for flt in ([], ["--rf-over", "0"]):
+            out.append({"tree": "three_roots", "pairs": False, "tier": tier, "stdin": stdin, "filter": flt})
     if tier == "thorough":
         out.append({"tree": "small_unknown", "pairs": True, "tier": tier})
+        out.append({"tree": "three_roots", "pairs": True, "tier": tier, "stdin": True})
     return out
 
 
@@ -71,10 +82,13 @@ def evaluate(case):
     with C.Scratch(C.EXT4 if ext4 else None) as sc:
         C.make_tree(sc.tree, entries)
         flt = case.get("filter", [])
-        args = ["group", "-t", "1", "--min", "0", "-f", "json"] + gargs + flt + ["r"]
+        roots = ROOTS.get(case["tree"], ["r"])
+        via_stdin = bool(case.get("stdin"))
+        stdin = ("\n".join(roots) + "\n").encode() if via_stdin else b""
+        args = ["group", "-t", "1", "--min", "0", "-f", "json"] + gargs + flt + (["--stdin"] if via_stdin else roots)
         env = {"FCLONES_VERIF_DISK_KIND": disk}
-        rec = S.run_with_shim(sc, args, [sc.tree], "r", env_extra=env)
-        rec2 = S.run_with_shim(sc, args, [sc.tree], "r", env_extra=env)
+        rec = S.run_with_shim(sc, args, [sc.tree], "r", env_extra=env, stdin=stdin)
+        rec2 = S.run_with_shim(sc, args, [sc.tree], "r", env_extra=env, stdin=stdin)
         d = S.same_history(rec["events"], rec2["events"])
         if d:
             raise C.MachineryError("read-side history not deterministic (%s): %s" % (case["tree"], d))
@@ -93,13 +107,13 @@ def evaluate(case):
                     info[p] = ((st.st_dev, st.st_ino), C.read_file(p))
                 except OSError:
                     pass
-        root_abs = os.path.join(sc.tree, "r")
+        roots_abs = [os.path.join(sc.tree, r) for r in roots]
         # which files does a fault-free run scan at all? (ask the binary with --rf-over 0; the scan itself is C09's subject)
-        rc0, out0, err0, to0 = C.fclones(["group", "-t", "1", "--min", "0", "-f", "json", "--rf-over", "0"] + gargs + ["r"],
+        rc0, out0, err0, to0 = C.fclones(["group", "-t", "1", "--min", "0", "-f", "json", "--rf-over", "0"] + gargs + roots,
                                          sc, env_extra=env)
         scanned = set(os.path.normpath(C.u(p)) for g in C.parse_json_report(out0).groups for p in g["paths"])
         ref_all = {"files": {p: {"dev": info[p][0][0], "ino": info[p][0][1], "len": len(info[p][1]), "data": info[p][1],
-                                 "root": 0} for p in scanned if p in info}, "roots": [root_abs]}
+                                 "root": 0} for p in scanned if p in info}, "roots": roots_abs}
 
         def expected_for(drop):
             ref = {"files": {p: f for p, f in ref_all["files"].items() if p not in drop}, "roots": ref_all["roots"]}
@@ -130,11 +144,25 @@ def evaluate(case):
 
         plan = []
         walk_start = min([i for i, ev in enumerate(events) if ev.call == "opendir"] or [0])
-        validated = (root_abs, sc.tree, sc.tree + "/.", sc.tree + "/")
+        base_forms = (sc.tree, sc.tree + "/.", sc.tree + "/")
+        first_on_root = {}
+        for i, ev in enumerate(events):
+            if ev.path in roots_abs and ev.path not in first_on_root:
+                first_on_root[ev.path] = i
 
         def is_validation(k):
-            # stat/realpath of the base directory and of the input paths before the walk starts: input validation
-            return k < walk_start and events[k].path in validated
+            # input validation: stat/realpath of the base directory before the walk starts, and - when the input paths
+            # are arguments - the up-front existence check (the first call on each of them). With several roots every
+            # later call on a root belongs to the walk; for the single-root trees everything before the walk starts
+            # is treated as validation (a run without any input path left is allowed to fail).
+            ev = events[k]
+            if k < walk_start and ev.path in base_forms:
+                return True
+            if ev.path in roots_abs:
+                if len(roots_abs) == 1:
+                    return k < walk_start
+                return (not via_stdin) and first_on_root[ev.path] == k
+            return False
         for k, ev in enumerate(events):
             if is_validation(k):
                 continue
@@ -148,16 +176,16 @@ def evaluate(case):
         for (k, e, k2) in plan:
             evals += 1
             res = S.run_with_shim(sc, args, [sc.tree], "r", mode="fail", at=k, errno=S.ERRNO[e], at2=k2,
-                                  errno2=S.ERRNO["EIO"] if k2 is not None else None, env_extra=env)
+                                  errno2=S.ERRNO["EIO"] if k2 is not None else None, env_extra=env, stdin=stdin)
             d = S.same_history(events, res["events"], upto=min(k, len(res["events"])))
             if d:
                 raise C.MachineryError("prefix diverged before event %d (%s): %s" % (k, case["tree"], d))
             ev = events[k]
-            feat = {"call": ev.call, "errno": e, "stage": "walk" if ev.call in ("opendir", "readdir", "lstat", "readlink", "realpath") else "hash_or_stat",
+            feat = {"call": ev.call, "errno": e, "on_input_path": ev.path in roots_abs, "stage": "walk" if ev.call in ("opendir", "readdir", "lstat", "readlink", "realpath") else "hash_or_stat",
                     "second_fault": k2 is not None}
             ctx = "%s event %d %r errno %s%s" % (case["tree"], k, ev, e, " + EIO at event %d of the faulted run" % k2 if k2 is not None else "")
             rc_case = dict(case, only=[k, e, k2])
-            reached.append([case["tree"], " ".join(case.get("filter", [])), k, e, k2])
+            reached.append([case["tree"], " ".join(case.get("filter", [])), via_stdin, k, e, k2])
             if res["timeout"]:
                 viol.append(dict(feat, kind="hang", detail=ctx, replay_case=rc_case))
                 continue
